@@ -1266,6 +1266,7 @@ pub const BUGS: &[&str] = &[
     "tileset-bomb",
     "indexed-bomb-missing-index",
     "userdata-props-deep",
+    "bomb-plus-error",
 ];
 
 fn ensure_tilemap(s: &mut SpriteSpec, r: &mut Rng) -> usize {
@@ -2620,6 +2621,21 @@ pub fn apply_bug(s: &mut SpriteSpec, bug: &str, r: &mut Rng, scale: usize) -> St
                 s.durations.push(100);
             }
             "a tags chunk (0..3 tags) followed by user data in a frame other than the first (applied on bytes)".into()
+        }
+        "bomb-plus-error" => {
+            // a large, consistent, highly compressible cel (image or tile grid) **plus** one flaw that
+            // is only noticed after the payload was decoded: what the loader does with the decoded
+            // data on its error path (formatting it, collecting offenders, cloning it) is then
+            // charged to a file of a few kilobytes
+            let first = if scale % 2 == 0 { "bomb-with-links" } else { "tilemap-bomb-with-links" };
+            let d1 = apply_bug(s, first, r, (scale / 2).clamp(8, 40));
+            let second = if first == "bomb-with-links" {
+                *r.pick(&["cel-on-group", "indexed-pixel-oob", "link-bad-frame", "link-to-missing", "cel-layer-oob", "first-layer-child", "level-jump", "raw-cel-on-tilemap-layer"])
+            } else {
+                *r.pick(&["tilemap-cel-on-image-layer", "tilemap-cel-on-image-layer", "layer-missing-tileset", "tile-id-oob", "link-bad-frame", "cel-layer-oob", "tileset-pixels-short", "tile-size-zero"])
+            };
+            let d2 = apply_bug(s, second, r, 1);
+            format!("{} ; then {} ({})", d1, second, d2)
         }
         "userdata-props-deep" => {
             // Aseprite 1.3 property maps are a recursive structure (vectors of vectors, maps in
